@@ -59,8 +59,8 @@ func genSame(cur, des *Schema, tbl, col string) (same bool, dep string) {
 }
 
 type preserveStats struct {
-	surviving int
-	coalesced int // NULLs that were replaced by the default
+	surviving    int
+	coalesced    int // NULLs that were replaced by the default
 	rows         int
 	aliasNull    int
 	materialised int
